@@ -13,8 +13,8 @@
    a prefix: of [answers] (cancelled between two responses) or of the sent
    sequence (the consumer cancels after n providers: [firstn n]). *)
 From Verif.Lib Require Import GoSem Bits.
-From Verif.Model Require Import ProvSearch.
-From Verif.Proofs Require Import ProvSearchProofs.
+From Verif.Model Require Import ProvSearch ProvSearchFrt.
+From Verif.Proofs Require Import ProvSearchProofs ProvSearchFrtProofs.
 From Coq Require Import Permutation.
 
 (* 1. Every yielded provider is stored locally or was named in a processed answer. *)
@@ -125,6 +125,100 @@ Theorem c08_fullrt :
 Proof. exact fr_search_spec. Qed.
 Print Assumptions c08_fullrt.
 
+(* 8. Accelerated client, the whole routine (Model/ProvSearchFrt.v).  GetClosestPeers
+   hands the search [n] peers which are all asked at once; [arrivals] is ANY
+   order in which those requests return (with an answer or an error), mixed
+   with the 500 ms ticks of execOnMany and a cancellation of the caller's
+   context; [q]/4 is the success wait fraction; [no_store]: providers disabled,
+   undefined key or failing provider manager; [precancel]: cancelled before the
+   provider store is read; [takes]: the consumer leaves after that many
+   providers.  An arrival [ALate a wins] is a reply that still reaches the
+   search although its context is already cancelled (it had been read when the
+   cancellation came); the sends of its loop race against ctx.Done() and [wins]
+   of them win -- the theorems hold for every outcome of that race.
+   [fst (frt_core ...)] is what the consumer receives, [snd (frt_core ...)]
+   flags the events that were answers processed on a live context
+   ([processed]); [delivered] adds the late ones. *)
+
+(* 8a. only local providers or providers named in an answer that reached the search; no peer
+   is ever repeated (the accelerated client has no address upgrade); at most
+   count when count > 0, nothing when count < 0 *)
+Theorem c08_frt_spec :
+  forall sh no_store precancel count locals n q arrivals takes,
+    (forall l, Permutation l (sh l)) ->
+    let r := frt_core sh no_store precancel count locals n q arrivals takes in
+    (forall e, In e (fst r) -> In e locals \/ exists a, In a (delivered arrivals (snd r)) /\ In e a) /\
+    NoDup (map fst (fst r)) /\
+    ((0 < count)%Z -> (Z.of_nat (length (fst r)) <= count)%Z) /\
+    ((count < 0)%Z -> fst r = []).
+Proof. exact frt_spec. Qed.
+Print Assumptions c08_frt_spec.
+
+(* 8b. count 0, a consumer that stays: every local provider and every provider
+   named in any processed answer is yielded -- whatever the arrival order, the
+   ticks and a later cancellation *)
+Theorem c08_frt_count_zero_complete :
+  forall sh locals n q arrivals e,
+    (forall l, Permutation l (sh l)) ->
+    let r := frt_core sh false false 0 locals n q arrivals None in
+    In e locals \/ (exists a, In a (processed arrivals (snd r)) /\ In e a) ->
+    In (fst e) (map fst (fst r)).
+Proof. exact frt_zero_complete. Qed.
+Print Assumptions c08_frt_count_zero_complete.
+
+(* 8c. the result channel is closed exactly once, as the last event, on every path *)
+Theorem c08_frt_closed_once :
+  forall sh no_store precancel count locals n q arrivals takes,
+    let evs := frt_routine sh no_store precancel count locals n q arrivals takes in
+    let ys := fst (frt_core sh no_store precancel count locals n q arrivals takes) in
+    evs = map Yield ys ++ [Closed] /\ ~ In Closed (map Yield ys).
+Proof. exact frt_closed_once. Qed.
+Print Assumptions c08_frt_closed_once.
+
+(* 8d. once count providers were received no request that returns later is
+   processed on a live context (cancelquery) and nothing more is yielded, not
+   even from a reply that still gets through (the cap inside psTryAdd) *)
+Theorem c08_frt_stops :
+  forall sh no_store precancel count locals n q pre post takes,
+    (0 < count)%Z ->
+    (count <= Z.of_nat (length (fst (frt_core sh no_store precancel count locals n q pre takes))))%Z ->
+    frt_core sh no_store precancel count locals n q (pre ++ post) takes =
+    (fst (frt_core sh no_store precancel count locals n q pre takes),
+     snd (frt_core sh no_store precancel count locals n q pre takes) ++ map (fun _ : arrival => false) post).
+Proof. exact frt_stops. Qed.
+Print Assumptions c08_frt_stops.
+
+(* 8e. after the caller's context is cancelled nothing is processed and, when no
+   reply gets through any more, nothing more is yielded *)
+Theorem c08_frt_cancelled :
+  forall sh no_store precancel count locals n q pre post takes,
+    no_late post ->
+    frt_core sh no_store precancel count locals n q (pre ++ ACancel :: post) takes =
+    (fst (frt_core sh no_store precancel count locals n q pre takes),
+     snd (frt_core sh no_store precancel count locals n q pre takes) ++ map (fun _ : arrival => false) (ACancel :: post)).
+Proof. exact frt_cancelled. Qed.
+Print Assumptions c08_frt_cancelled.
+
+(* 8f. an answer that was in flight and is still processed after the cap was
+   reached changes neither the set held nor what is yielded; and with a
+   consumer that stays the routine yields exactly [fr_search] (theorem 7) over
+   the processed answers *)
+Theorem c08_frt_late_answers :
+  forall sh count locals answers more,
+    fr_stop count (fst (fr_search sh count locals answers)) = true ->
+    forall ps ys, fr_feed_answers sh count (fst (fr_search sh count locals answers)) more = (ps, ys) ->
+    ps = fst (fr_search sh count locals answers) /\ ys = [].
+Proof. exact fr_late_answers_change_nothing. Qed.
+Print Assumptions c08_frt_late_answers.
+
+Theorem c08_frt_refines :
+  forall sh count locals n q arrivals,
+    no_late arrivals ->
+    let r := frt_core sh false false count locals n q arrivals None in
+    fst r = snd (fr_search sh count locals (processed arrivals (snd r))).
+Proof. exact frt_refines_fr_search. Qed.
+Print Assumptions c08_frt_refines.
+
 (* Non-vacuity: count 2, one local provider without addresses, the first answer
    (reversed by the shuffle) upgrades it and adds a second provider, after which
    the stop function holds and a further answer yields nothing; with count 0
@@ -142,3 +236,34 @@ Example c08_nonvacuous :
   (dual_merge 0 [(1, false); (2, true); (1, true); (3, true)] = [(1, false); (2, true); (3, true)]) /\
   (forall l : list entry, Permutation l (rev l)).
 Proof. vm_compute. repeat split; try reflexivity. apply Permutation_rev. Qed.
+
+(* Non-vacuity, accelerated client: 4 peers asked, wait fraction 2/4, one local
+   provider.  The first answer names the local provider BEFORE a new one (both
+   must come out with count 0), the second request fails, the third answer
+   repeats a peer and adds one; with two successes and three returns out of
+   four execOnMany cancels the rest: the fourth answer is not processed.  With
+   wait fraction 1/4 of 5 peers the first success starts the ticker, and a tick
+   without a further success cancels the rest.  With
+   count 2 the first answer already fills the set and nothing else is
+   processed, and replies that still get through add nothing; after a
+   cancellation a late reply whose second send loses the race yields one
+   provider; a consumer that leaves after one provider gets one. *)
+Definition ex_arrivals : list arrival :=
+  [AOk [(1, true); (2, true)]; AFail; AOk [(2, false); (2, true); (3, false)]; AOk [(4, true)]].
+Example c08_frt_nonvacuous :
+  frt_core (fun l => l) false false 0 [(1, false)] 4 2 ex_arrivals None
+    = ([(1, false); (2, true); (3, false)], [true; false; true; false]) /\
+  frt_core (fun l => l) false false 2 [(1, false)] 4 2 ex_arrivals None
+    = ([(1, false); (2, true)], [true; false; false; false]) /\
+  frt_core (fun l => l) false false 0 [(1, false)] 5 1 (AOk [(5, true)] :: ATick :: ex_arrivals) None
+    = ([(1, false); (5, true)], [true; false; false; false; false; false]) /\
+  frt_core (fun l => l) false false 0 [(1, false)] 4 2 ex_arrivals (Some 1%nat)
+    = ([(1, false)], [false; false; false; false]) /\
+  frt_core (fun l => l) false false 2 [(1, false)] 4 2
+           (AOk [(1, true); (2, true)] :: ALate [(2, true); (7, true); (8, true)] 3 :: ALate [] 0 :: [AFail]) None
+    = ([(1, false); (2, true)], [true; false; false; false]) /\
+  frt_core (fun l => l) false false 0 [(1, false)] 4 2 (ACancel :: ALate [(7, true); (8, true); (9, true)] 1 :: [AOk [(6, true)]]) None
+    = ([(1, false); (7, true)], [false; false; false]) /\
+  frt_routine (fun l => l) true false 0 [(1, false)] 4 2 ex_arrivals None = [Closed] /\
+  processed ex_arrivals [true; false; true; false] = [[(1, true); (2, true)]; [(2, false); (2, true); (3, false)]].
+Proof. vm_compute. repeat split; reflexivity. Qed.
